@@ -148,4 +148,75 @@ pub open spec fn is_first_not_before(stream: &StreamContext, a: int, p: int) -> 
 //@|        r is Ok ==> exists|a: int| 0 <= a < all_msgs@.len() && (#[trigger] all_msgs@[a]).index == wanted_msg_idx && is_first_not_before(stream, a, r->Ok_0 as int), // O:lookup.index
 //@|        r is Err ==> forall|i: int| 0 <= i < all_msgs@.len() ==> (#[trigger] all_msgs@[i]).index != wanted_msg_idx, // O:lookup.index_unknown
 //@ end
+
+// ---- time lookup (stream_binary_search time_ms=<t>) ----
+// msg_time: the time the closure of binary_search_by_time_us computes for a message (lifecycle start from a snapshot of the
+// lifecycle table + timestamp, or the reception time when the lifecycle is unknown): a fixed function during one lookup (R11)
+pub uninterp spec fn msg_time(m: DltMessage) -> u64;
+pub open spec fn time_sorted(all: Seq<DltMessage>) -> bool { forall|i: int, j: int| 0 <= i < j < all.len() ==> msg_time(#[trigger] all[i]) <= msg_time(#[trigger] all[j]) }
+// std: <[T]>::binary_search_by(|m| msg_time(m).cmp(&t)): "if there are multiple matches, then any one of the matches could be returned"
+#[verifier::external_body]
+pub fn vx_bsearch_time(all: &Vec<DltMessage>, t: u64) -> (r: Result<usize, usize>)
+    ensures
+        time_sorted(all@) && r is Ok ==> r->Ok_0 < all@.len() && msg_time(all@[r->Ok_0 as int]) == t,
+        time_sorted(all@) && r is Err ==> r->Err_0 <= all@.len() && (forall|j: int| 0 <= j < r->Err_0 ==> msg_time(#[trigger] all@[j]) < t) && (forall|j: int| r->Err_0 <= j < all@.len() ==> msg_time(#[trigger] all@[j]) > t),
+{ unimplemented!() }
+// std: <[T]>::partition_point(|m| msg_time(m) < t) on a slice partitioned by that predicate: the index of the first element for
+// which it is false
+#[verifier::external_body]
+pub fn vx_partition_point_time(all: &Vec<DltMessage>, t: u64) -> (r: usize)
+    ensures
+        r <= all@.len(),
+        time_sorted(all@) ==> (forall|j: int| 0 <= j < r ==> msg_time(#[trigger] all@[j]) < t) && (forall|j: int| r <= j < all@.len() ==> msg_time(#[trigger] all@[j]) >= t),
+{ unimplemented!() }
+//@ extract src/bin/adlt/remote.rs region `let all_msgs_idx = fc` .. `if stream.filters_active {` in fn binary_search_by_time_us
+//@   sig pub fn lookup_by_time(time_us: u64, all_msgs: &Vec<DltMessage>, stream: &StreamContext) -> (r: usize)
+//@   sub R11 `fc .all_msgs .binary_search_by(|m| { let m_time = if let Some(lc_start_time) = lc_id_map.get(&m.lifecycle) { lc_start_time + m.timestamp_us() } else { m.reception_time_us }; m_time.cmp(&time_us) }) .unwrap_or_else(|e| e)` => `vx_ok_or_err(vx_bsearch_time(all_msgs, time_us))` ?
+//@   sub R11 `fc .all_msgs .partition_point(|m| { let m_time = if let Some(lc_start_time) = lc_id_map.get(&m.lifecycle) { lc_start_time + m.timestamp_us() } else { m.reception_time_us }; m_time < time_us })` => `vx_partition_point_time(all_msgs, time_us)` ?
+//@   sub R11 `stream .filtered_msgs .binary_search(&all_msgs_idx) .unwrap_or_else(|e| e)` => `vx_ok_or_err(vx_bsearch_usize(&stream.filtered_msgs, all_msgs_idx))`
+//@   spec
+//@|    requires
+//@|        time_sorted(all_msgs@), // the lookup's own assumption: the messages are in time order
+//@|        stream_ok(all_msgs@, stream),
+//@|        stream.filters_active ==> ascending(stream.filtered_msgs@),
+//@|    ensures
+//@|        // the position of the first stream message that is not before the requested time
+//@|        r <= stream_msgs(all_msgs@, stream).len(),
+//@|        forall|p: int| 0 <= p < r ==> msg_time(#[trigger] stream_msgs(all_msgs@, stream)[p]) < time_us, // O:lookup.time.before
+//@|        forall|p: int| r <= p < stream_msgs(all_msgs@, stream).len() ==> msg_time(#[trigger] stream_msgs(all_msgs@, stream)[p]) >= time_us, // O:lookup.time.first
+//@ end
+
+// ---- index lookup in a file sorted by time (the `if fc.sort_by_time` branch of binary_search_by_msg_index) ----
+// std: iter().enumerate().find(|(_, m)| m.index == wanted): the first position with that index (R11)
+#[verifier::external_body]
+pub fn vx_find_by_index<'a>(all: &'a Vec<DltMessage>, wanted: DltMessageIndexType) -> (r: Option<(usize, &'a DltMessage)>)
+    ensures
+        r is Some ==> r->Some_0.0 < all@.len() && all@[r->Some_0.0 as int].index == wanted && *r->Some_0.1 == all@[r->Some_0.0 as int],
+        r is None ==> forall|i: int| 0 <= i < all@.len() ==> (#[trigger] all@[i]).index != wanted,
+{ unimplemented!() }
+// std: filtered.binary_search_by(|f_idx| msg_time(all[*f_idx]).cmp(&msg_time(msg))): any one of the matches
+#[verifier::external_body]
+pub fn vx_bsearch_filtered_time(filtered: &Vec<usize>, all: &Vec<DltMessage>, msg: &DltMessage) -> (r: Result<usize, usize>)
+    ensures
+        r is Ok ==> r->Ok_0 < filtered@.len() && msg_time(all@[filtered@[r->Ok_0 as int] as int]) == msg_time(*msg),
+        r is Err ==> r->Err_0 <= filtered@.len()
+            && (forall|j: int| 0 <= j < r->Err_0 ==> msg_time(all@[#[trigger] filtered@[j] as int]) < msg_time(*msg))
+            && (forall|j: int| r->Err_0 <= j < filtered@.len() ==> msg_time(all@[#[trigger] filtered@[j] as int]) > msg_time(*msg)),
+{ unimplemented!() }
+//@ extract src/bin/adlt/remote.rs region `let wanted_msg = fc` .. `if let Some((all_msgs_idx,` in fn binary_search_by_msg_index
+//@   sig pub fn lookup_by_index_sorted(wanted_msg_idx: DltMessageIndexType, all_msgs: &Vec<DltMessage>, stream: &StreamContext) -> (r: Result<usize, String>)
+//@   sub R11 `fc .all_msgs .iter() .enumerate() .find(|(_all_msgs_idx, m)| m.index == wanted_msg_idx)` => `vx_find_by_index(all_msgs, wanted_msg_idx)`
+//@   cut R11 `let lc_id_map =` ?
+//@   cut R11 `let wanted_msg_time_us =` ?
+//@   sub R11 `stream .filtered_msgs .binary_search_by(|f_idx| { let msg = fc.all_msgs.get(*f_idx).unwrap(); let m_time = if let Some(lc_start_time) = lc_id_map.get(&msg.lifecycle) { lc_start_time + msg.timestamp_us() } else { msg.reception_time_us }; m_time.cmp(&wanted_msg_time_us) }) .unwrap_or_else(|e| e)` => `vx_ok_or_err(vx_bsearch_filtered_time(&stream.filtered_msgs, all_msgs, msg))` ?
+//@   sub R11 `stream .filtered_msgs .binary_search(&all_msgs_idx) .unwrap_or_else(|e| e)` => `vx_ok_or_err(vx_bsearch_usize(&stream.filtered_msgs, all_msgs_idx))` ?
+//@   spec
+//@|    requires
+//@|        time_sorted(all_msgs@),
+//@|        stream_ok(all_msgs@, stream),
+//@|        stream.filters_active ==> ascending(stream.filtered_msgs@),
+//@|    ensures
+//@|        r is Ok ==> exists|a: int| 0 <= a < all_msgs@.len() && (#[trigger] all_msgs@[a]).index == wanted_msg_idx && is_first_not_before(stream, a, r->Ok_0 as int), // O:lookup.index_sorted
+//@|        r is Err ==> forall|i: int| 0 <= i < all_msgs@.len() ==> (#[trigger] all_msgs@[i]).index != wanted_msg_idx, // O:lookup.index_sorted_unknown
+//@ end
 // ---- end of units/streamsearch/part.rs ----
